@@ -44,6 +44,7 @@ let zi s = z_of_int (int_of_string s)
 let b2s b = if b then "ok" else "bad"
 
 let spec strict fs obs = match fs, obs with
+  | _, ("BADCASE" :: _) -> "pre"                       (* not a case of this engine (e.g. a shrinking candidate that lost a field) *)
   | _, ("CRASH" :: _ | "TIMEOUT" :: _) -> "bad"
   | _, l when List.mem "MISMATCH" l || List.mem "MODIFIED" l || List.mem "BADLEN" l -> "bad"
   | ["d0"], ["K"; _; _; _] -> "ok"
